@@ -49,6 +49,7 @@ SetStop ==
   /\ UNCHANGED <<pvars, lpc, toWait, backlog, arrived, sinceLast, unlinked>>
 
 LRelease(j) == EnvRelease(j) /\ UNCHANGED lvars
+LCrash(j) == EnvCrash(j) /\ UNCHANGED lvars       \* the handler of connection j ends by panicking
 
 (* ---- the loop ---- *)
 AcceptConn ==
@@ -90,7 +91,7 @@ Unlink ==
 LWorker(w) == (WRecv(w) \/ WCount(w) \/ WStart(w) \/ WFinish(w) \/ WUncount(w)) /\ UNCHANGED lvars
 
 LNext ==
-  \/ Arrive \/ SetStop \/ (\E j \in Jobs : LRelease(j))
+  \/ Arrive \/ SetStop \/ (\E j \in Jobs : LRelease(j) \/ LCrash(j))
   \/ AcceptConn \/ LAccCount \/ LAccSend \/ LAccDecide \/ Tick
   \/ LDropSend \/ LDropJoined \/ Unlink
   \/ \E w \in Wids : LWorker(w)
